@@ -324,7 +324,7 @@ def build_traces(ctx):
         for seq in itertools.product(LATE, repeat=n):
             traces.append(run_history(LATE_CFG, pre + list(seq)))
     nlate = len(traces) - nex
-    for _ in range(ctx.pick(1200, 30000)):
+    for _ in range(ctx.pick(1200, 12000)):
         traces.append(run_history(random_cfg(ctx.rng), random_ops(ctx.rng, ctx.rng.randint(4, 28))))
     ctx.extra["histories"] = dict(exhaustive_core=nex, exhaustive_late=nlate, random=len(traces) - nex - nlate)
     return traces
@@ -340,6 +340,13 @@ def run(ctx):
     ctx.mc("SmtpSessionMC", ctx.pick("SmtpSessionMC.deep.cfg", "SmtpSessionMC.deep.thorough.cfg"), label="deep", coverage=False)
     ctx.require_actions("SmtpSessionMC", ["Connect", "Helo", "Ehlo", "Mail", "Rcpt", "Data", "Rset", "Quit", "Dot", "Body",
                                            "Long", "Idle", "Fire", "Lost"])
+    # vacuity: the deviations the conditional invariants step around are reachable (TLC must find them)
+    from harness.core import MachineryError
+    for cfgfile, what in [("SmtpSessionMC.reachD2.cfg", "a recipient accepted late sits in an envelope without sender (D2)")] + \
+                         ([] if ctx.quick else [("SmtpSessionMC.reachD4.cfg", "a message is told connectionLost twice (D4)")]):
+        r = ctx.mc("SmtpSessionMC", cfgfile, must_pass=False, coverage=False, label="vacuity: reachable: " + what)
+        if r.ok or r.kind != "invariant":
+            raise MachineryError("vacuity: %s expected reachable, got ok=%s kind=%s" % (what, r.ok, r.kind))
     traces = build_traces(ctx)
     ctx.note_traces(traces)
     rej = ctx.validate("SmtpSessionTrace", traces, shard_size=1500)
